@@ -41,6 +41,11 @@ func (zo *Object) GetObjectName() string {
 	return zo.model.GetName()
 }
 
+// GetModel - the type of the object
+func (zo *Object) GetModel() *ClassModel {
+	return zo.model
+}
+
 func (zo *Object) IsInstanceOf(classModel *ClassModel) bool {
 	return zo.model == classModel
 }
